@@ -660,7 +660,8 @@ IGXMLScanner::buildAttList(const  RefVectorOf<KVStringPair>&  providedAttrs
                     else
                     {
                         XSSimpleTypeDefinition *memberType = 0;
-                        if(validatingType->getVariety() == XSSimpleTypeDefinition::VARIETY_UNION)
+                        // the model has no object for the type when the schema could not be loaded completely
+                        if(validatingType && validatingType->getVariety() == XSSimpleTypeDefinition::VARIETY_UNION)
                             memberType = (XSSimpleTypeDefinition *)fModel->getXSObject(attrValidator);
                         psviAttr->reset
                         (
